@@ -1,9 +1,9 @@
 (* Props/C03.v — C03: a process crash at any instant loses no acknowledged write and corrupts nothing.
-   What is proved here (record level, crash points at system-call boundaries of set / delete /
-   rollover / reopen, and at every operation boundary of any script including merges); what is NOT
-   yet proved is listed at the end and is decided by enumeration of crash images cut from recorded
-   real traces (`bin/check C03`). *)
-From BC Require Import Store.Codec Store.CodecProofs Store.Engine Store.Log Store.Cons Store.Inv Store.Refine Store.Merge Store.Theorems Store.Crash Store.CrashScript.
+   Proved for the model: every crash image — any prefix of the system calls of any ready script,
+   merges included, the last write cut at any byte — recovers to the map after the first n
+   operations (theorem 7).  The tie to the code is by execution: `bin/check C03` compares the model's
+   traces with recorded real ones and opens every crash image of the real traces with the real code. *)
+From BC Require Import Store.Codec Store.CodecProofs Store.Engine Store.Log Store.Cons Store.Inv Store.Refine Store.Merge Store.Theorems Store.Crash Store.CrashScript Store.CrashMerge.
 Open Scope N_scope.
 
 (* 1. At every operation boundary of every ready script — merges included — the directory can be
@@ -128,18 +128,33 @@ Proof.
     + vm_compute. reflexivity.
 Qed.
 
-(* ... and for scripts with merges, given the same statement for one merge pass (Store/CrashMerge.v) *)
-Theorem C03_script_crash_safe : forall c ops s s0,
-  Inv s -> run_ready c s ops -> rep s0 (s_dir s) -> trace_wf (snd (run c s ops)) ->
-  (forall s' o, Inv s' -> op_ready c s' o -> In o ops -> step_safe_at c s' o) ->
-  (exists s1, fs_run s0 (snd (run c s ops)) = Some s1 /\ rep s1 (s_dir (fst (fst (run c s ops))))) /\
-  forall img, image_of s0 (snd (run c s ops)) img ->
-    exists n, (n <= length ops)%nat /\ img_ok img (abs (state_after c s ops n)).
-Proof. exact script_crash_safe. Qed.
-Print Assumptions C03_script_crash_safe.
+(* 7. THE property, for every ready script — merges included.  A merge pass adds: copies of live
+      records in new files (read through hint files that are written after the data, so a torn or
+      missing hint only hides a copy), two fsyncs, then the removal of the selected files in ascending
+      id order, hint file first; at every instant the removed set is closed downwards within the
+      selection, so no tombstone disappears before the values it hides (Store/CrashMerge.v). *)
+Theorem C03_crash_safe : forall c ops s0, run_ready c init ops -> rep s0 (s_dir init) -> trace_wf (snd (run c init ops)) ->
+  forall img, image_of s0 (snd (run c init ops)) img ->
+    exists n, (n <= length ops)%nat /\ img_ok img (abs (state_after c init ops n)).
+Proof. exact crash_safe. Qed.
+Print Assumptions C03_crash_safe.
 
-(* Not yet proved in Coq (C03_crash_safe in DESIGN.md section 8):
-     - crash points strictly inside a merge pass (between its copies, its fsyncs and its unlinks),
-     - histories with several crashes.
-   `bin/check C03` covers them by opening, with the real code, every image cut from the recorded real
-   trace of every generated workload at every call boundary and at byte cuts inside writes. *)
+Theorem C03_merge_pass_crash_safe : forall c s ord, Inv s -> merge_ready c s ord -> step_safe_at c s (OMerge ord).
+Proof. exact merge_safe. Qed.
+Print Assumptions C03_merge_pass_crash_safe.
+
+(* non-vacuity for a merge: the script of C03_crash_example followed by more writes and a full merge is
+   ready, its trace is executable by the byte-level file system, and ends in the model's directory *)
+Example C03_merge_example :
+  let c := mkCfg 60 false 0 1 0 1000000000 in
+  let ops := [OSet [107] [1; 2]; OSet [108] [3]; ODel [107]; OSet [109] [4; 4; 4; 4; 4; 4; 4; 4; 4; 4; 4; 4; 4; 4; 4; 4; 4; 4; 4; 4; 4; 4; 4; 4; 4; 4; 4; 4; 4; 4]; OMerge [[108]; [109]]] in
+  let s0 : fs := fun f => match f with FData 0 => Some [] | _ => None end in
+  (exists s1, fs_run s0 (snd (run c init ops)) = Some s1 /\ s1 (FData 0) = None /\ s1 (FData 2) <> None) /\
+  existsb (fun call => match call with SUnlink _ => true | _ => false end) (snd (run c init ops)) = true.
+Proof. cbv zeta. split; [eexists; split; [vm_compute; reflexivity|split; [reflexivity|discriminate]]|vm_compute; reflexivity]. Qed.
+
+(* Not covered by these theorems: histories with several crashes in a row (each recovery starts a
+   new process whose first call creates a file: theorem 4), and the step from [reads_as] to the real
+   scanner, which theorem C03_reads_as_is_what_the_scanner_reads states for the model's decoders.
+   `bin/check C03` opens, with the real code, every image cut from the recorded real trace of every
+   generated workload at every call boundary and at byte cuts inside writes, merges included. *)
